@@ -77,6 +77,17 @@ CHECKS = {
           "outputs are only checked for shape/determinism/idempotence on the generated grammar; 'resolves as the URL standard prescribes' "
           "is therefore validated by sampling, not proved.",
  },
+ "C15": {
+  "text": "Theorems: hop count survives the path encoding for every n; for every sequence of arrivals / timer ticks / accepted and "
+          "refused sends (any failures, any batch size) the batcher conserves items — arrived = delivered + in flight + being batched "
+          "— and drains once failures stop; a give-up branch provably loses a batch; the local queue never holds a value twice through "
+          "any sequence of adds, claims, deletes, resets, restarts. Facts: the L letter, the fields sent and read back, flush "
+          "conditions, retry loops without give-up, notification after MarkAsFinished, via = parent canonical URL, the UNIQUE index "
+          "and the constraint-error string. The real LQ client on a temp job dir and the real HQ producer/finisher routines against a "
+          "fault-scripted fake HQ are compared with the model / the workload.",
+  "note": COMMON_NOTE + "Modelled not verified: SQLite (atomic transactions, which constraint is reported first), gocrawlhq's HTTP client, "
+          "Go timers; the batcher theorem is about the abstract receive/batch/dispatch/send pipeline whose shape the facts pin.",
+ },
 }
 
 _todo = "check not built yet in this session (work in progress; see DESIGN.md §4 for the planned model and theorems)"
